@@ -13,12 +13,15 @@ import (
 	"verif/mc/model"
 )
 
-var c20Keys = []string{"a", "b", "c", "d", "ab"}
+var c20Keys = []string{"a", "b", "c", "d", "ab", ""}
+
+// c20Reenable is a pseudo document: EnableKeyCache is called again with the same capacity (the cache starts empty again)
+const c20Reenable = -1
 
 // documents: key lists (by index into c20Keys)
 func c20Docs(tier string) [][]int {
 	docs := [][]int{{0}, {1}, {2}, {3}, {4}}
-	docs = append(docs, []int{0, 1}, []int{1, 0}, []int{0, 0}, []int{2, 3, 4}, []int{0, 1, 2})
+	docs = append(docs, []int{0, 1}, []int{1, 0}, []int{0, 0}, []int{2, 3, 4}, []int{0, 1, 2}, []int{5}, []int{5, 0}, []int{c20Reenable})
 	if tier == "thorough" {
 		docs = append(docs, []int{3, 2, 1}, []int{4, 0}, []int{1, 1, 0})
 	}
@@ -53,8 +56,8 @@ func init() {
 	register(func() {
 		engine.Register(&engine.Check{
 			ID: "C20", Level: "model_checking",
-			Rule:        "explicit-state search over the unfolder's key cache: capacities 0-4 (thorough 0-6) x 5 target types x documents of 1-3 by-reference keys over the alphabet {a,b,c,d,ab} (the key bytes are overwritten right after every callback); states = reflective fingerprint of the cache (recency-ordered key list); all histories to the unpruned depth, then breadth first to a fixpoint / depth bound; on every transition the unfolded map equals the map produced by an identical unfolder without cache, all maps produced earlier in the history are still intact, and nothing panics; an LRU reference model labels transitions as hit / miss / eviction / re-insertion-after-eviction and all four must have been reached",
-			Assumptions: []string{"key alphabet of 5 keys, documents of at most 3 keys"},
+			Rule:        "explicit-state search over the unfolder's key cache: capacities 0-4 (thorough 0-6) x 5 target types x documents of 1-3 by-reference keys over the alphabet {a,b,c,d,ab,empty key} plus the operation 'EnableKeyCache again' (the key bytes are overwritten right after every callback); states = reflective fingerprint of the cache (recency-ordered key list); all histories to the unpruned depth, then breadth first to a fixpoint / depth bound; on every transition the unfolded map equals the map produced by an identical unfolder without cache, all maps produced earlier in the history are still intact, and nothing panics; an LRU reference model labels transitions as hit / miss / eviction / re-insertion-after-eviction and all four must have been reached",
+			Assumptions: []string{"key alphabet of 6 keys (incl. the empty key), documents of at most 3 keys"},
 			Families:    c20Families,
 			Bounds: func(tier string) map[string]interface{} {
 				return map[string]interface{}{"capacities": tierPick(tier, "0-4", "0-6"), "unpruned_depth": 2, "max_depth": tierPick(tier, 5, 7)}
@@ -97,6 +100,12 @@ func c20Families(tier string) []engine.Family {
 				var targets []interface{}
 				res := guard(4000000, func() error {
 					for _, d := range seq {
+						if docs[d][0] == c20Reenable {
+							if cache {
+								u.EnableKeyCache(capN)
+							}
+							continue
+						}
 						t := tg.mk()
 						targets = append(targets, t)
 						if err := u.SetTarget(t); err != nil {
@@ -122,9 +131,12 @@ func c20Families(tier string) []engine.Family {
 			}
 			m := &engine.BFSModel{Name: name, NumOps: len(docs),
 				OpName: func(op int) string {
+					if docs[op][0] == c20Reenable {
+						return "EnableKeyCache again"
+					}
 					var ks []string
 					for _, k := range docs[op] {
-						ks = append(ks, c20Keys[k])
+						ks = append(ks, fmt.Sprintf("%q", c20Keys[k]))
 					}
 					return "{" + strings.Join(ks, ",") + "}"
 				},
@@ -143,7 +155,9 @@ func c20Families(tier string) []engine.Family {
 						}
 					}
 					out := ""
-					if op >= 0 {
+					if op >= 0 && docs[op][0] == c20Reenable {
+						out = "re-enabled"
+					} else if op >= 0 {
 						out = got[len(got)-1]
 					}
 					full := model.Fingerprint(u, model.FPOpts{Skip: map[string]bool{"reg": true, "userReg": true}})
@@ -171,6 +185,10 @@ func c20Label(x *engine.Exec, capN int, docs [][]int, depth int) {
 			var lru []string
 			evicted := map[string]bool{}
 			for _, d := range seq {
+				if docs[d][0] == c20Reenable {
+					lru = nil
+					continue
+				}
 				for _, k := range docs[d] {
 					key := c20Keys[k]
 					pos := -1
